@@ -24,7 +24,7 @@ ASSUMPTIONS = [
 SCRIPT = [["GLOBALTAGS"], ["CONT_MAX"], ["CHOOSE", 0], ["CONT_MAX"], ["CHOOSE", 1], ["CONT"], ["CONT_MAX"],
           ["CHOOSE", 0], ["CONT_MAX"]]
 
-HOSTILE = ["\t", '"', "\\\\", "\\\"", "\u00e9", "\U0001f600", "\x01", "\x1f", "\x7f", "\u2028", "\u00a0", "'",
+HOSTILE = ["\t", '"', "\\\\", "\\\"", "\u00e9", "\U0001f600", "\x01", "\x1f", "\x7f", "\u00a0", "'",
            "\x0b", "\x0c", "\ud7ff", "\ue000", "\U0010ffff", "\x08", "\\\\n", "\\\\u0041", "a", "b c", "Z", " "]
 
 
@@ -39,7 +39,7 @@ def tokdrive(exe, ops):
     os.remove(p)
     if rc != 0:
         raise RuntimeError("tokdrive failed: " + e[-2000:])
-    res = [json.loads(l) for l in o.splitlines()]
+    res = [json.loads(l) for l in o.split("\n") if l]
     if len(res) != len(ops):
         raise RuntimeError("tokdrive: %d results for %d ops" % (len(res), len(ops)))
     return res
@@ -189,7 +189,8 @@ def text_layer_correspondence(ctx, exe_t, has_hook, n):
     texts += [lit for lit in NUMS]
     lits = sorted({m.group(0) for t in texts for m in NUM_RE.finditer(t)})
     fl = tokdrive(exe_t, [["serde", l] for l in lits])
-    tab = {l: int(b[1:]) for l, b in zip(lits, fl) if b.startswith("f")}
+    # the model hands the oracle the literal with a lower-case exponent marker (JsonStd.numlit_text)
+    tab = {l.replace("E", "e"): int(b[1:]) for l, b in zip(lits, fl) if b.startswith("f")}
     impl = tokdrive(exe_t, [["serde", t] for t in texts])
     model = vlib.coq_eval_sharded(pre + f"Definition tab : list (text*Z) := {coq_tab(tab)}.\n",
                                   [f"run_parse tab {vlib.text2coq(t)}" for t in texts], shard=120, name="c14std")
